@@ -33,6 +33,7 @@ type Faulty struct {
 	events   []Event
 
 	CasDelay time.Duration // every CasByVersion takes this long to reach the storage (a slow, but answering, storage)
+	CasErr   error         // what an injected CasByVersion failure returns (nil: ErrInjected)
 
 	holdArmed bool
 	holdAfter bool
@@ -229,8 +230,12 @@ func (f *Faulty) CasByVersion(ctx context.Context, r kvs.Record) (kvs.Record, er
 	}
 	f.mu.Unlock()
 	if fail {
-		f.log(Event{Op: "cas", Key: r.Key, Ver: r.Version, Err: ErrInjected})
-		return kvs.Record{}, ErrInjected
+		err := ErrInjected
+		if f.CasErr != nil && !f.dead() {
+			err = f.CasErr
+		}
+		f.log(Event{Op: "cas", Key: r.Key, Ver: r.Version, Err: err})
+		return kvs.Record{}, err
 	}
 	if f.HonourCtx && ctx.Err() != nil {
 		f.log(Event{Op: "cas", Key: r.Key, Ver: r.Version, Err: ctx.Err()})
